@@ -62,3 +62,16 @@ Print Assumptions C17_new_one_alloc.
 Print Assumptions C17_array_slice_roundtrip.
 Print Assumptions C17_downcast_iff_tag.
 Print Assumptions C17_life.
+
+(* ---------- the source tie: the statements of boxed.rs the model's operations stand for, pinned as
+   text and re-checked against /repo on every run (BoxSourceOk.v) ---------- *)
+From BV Require Import RustSem LeafActual BoxSourceOk.
+From Coq Require Import String.
+Theorem C17_source_frames :
+  forallb snd src_frames_box = true /\
+  map fst src_frames_box =
+  ["box_drop_runs_destructor_only"; "box_new_allocates_in_arena"; "box_into_inner_reads_out";
+   "box_from_raw_wraps"; "box_into_raw_forgets"; "box_leak_is_into_raw"; "box_array_to_slice";
+   "box_slice_to_array"; "box_downcast_any"; "box_downcast_any_send"]%string.
+Proof. split; [exact src_frames_box_ok | exact src_frames_box_names]. Qed.
+Print Assumptions C17_source_frames.
